@@ -79,9 +79,18 @@ func eanExpect(s string) string {
 // whether the caller enumerates (distinct by construction).
 func eanCheck(c *fw.Ctx, s string, unique bool) {
 	c.Eval()
+	if c.Res().Evals%64 == 0 {
+		poison("ean", false)
+	}
 	var bc barcode.BarcodeIntCS
 	var err error
-	pv, st := fw.Call(func() { bc, err = ean.Encode(s) })
+	pv, st := fw.Call(func() {
+		if PreferWithColor {
+			bc, err = ean.EncodeWithColor(s, barcode.ColorScheme16)
+		} else {
+			bc, err = ean.Encode(s)
+		}
+	})
 	if pv != nil {
 		c.Violation("panic:ean.Encode", fmt.Sprintf("panic: %v", pv), short(s), st)
 		return
